@@ -223,7 +223,19 @@ static void do_op(client *c, int op, int arg)
                 deadline = sim_now_ns() + FAR_WAIT_NS;
             }
             ABT_thread th = ABT_THREAD_NULL;
-            ABT_OK(ABT_pool_pop_wait_thread_ex(S.pool, &th, secs, popctx));
+            int flavour = (arg >> 11) % 3; /* the three public spellings of a waiting pop */
+            if (flavour == 0)
+                ABT_OK(ABT_pool_pop_wait_thread_ex(S.pool, &th, secs, popctx));
+            else if (flavour == 1) {
+                o->end = LIN_HEAD; /* default context */
+                ABT_OK(ABT_pool_pop_wait_thread(S.pool, &th, secs));
+            } else {
+                ABT_unit u = ABT_UNIT_NULL;
+                o->end = LIN_HEAD;
+                ABT_OK(ABT_pool_pop_wait(S.pool, &u, secs));
+                if (u != ABT_UNIT_NULL)
+                    ABT_OK(ABT_unit_get_thread(u, &th));
+            }
             if (th != ABT_THREAD_NULL) {
                 got_token(c, o, th, "pop_wait_thread");
                 if (far)
